@@ -549,6 +549,7 @@ func (c *HostClient) doNonNilReqResp(req *protocol.Request, resp *protocol.Respo
 		dialTimeout = reqTimeout
 	}
 	cc, inPool, err := c.acquireConn(dialTimeout)
+	verifYield(7)
 	// if getting connection error, fast fail
 	if err != nil {
 		return false, err
@@ -820,6 +821,7 @@ func (c *HostClient) acquireConn(dialTimeout time.Duration) (cc *clientConn, inP
 		c.conns = c.conns[:n]
 	}
 	c.connsLock.Unlock()
+	verifYield(0)
 
 	if cc != nil {
 		return cc, true, nil
@@ -850,6 +852,7 @@ func (c *HostClient) acquireConn(dialTimeout time.Duration) (cc *clientConn, inP
 		// waiting, the dialtimeout on the hostclient is used instead of
 		// the dialtimeout in request options.
 		c.queueForIdle(w)
+		verifYield(1)
 
 		select {
 		case <-w.ready:
@@ -892,6 +895,7 @@ func (c *HostClient) dialConnFor(w *wantConn) {
 	}
 
 	cc := acquireClientConn(conn)
+	verifYield(2)
 	delivered := w.tryDeliver(cc, nil)
 	if !delivered {
 		// not delivered, return idle connection
@@ -982,11 +986,13 @@ func (c *HostClient) connsCleaner() {
 
 func (c *HostClient) closeConn(cc *clientConn) {
 	c.decConnsCount()
+	verifYield(3)
 	cc.c.Close()
 	releaseClientConn(cc)
 }
 
 func (c *HostClient) decConnsCount() {
+	verifYield(6)
 	if c.MaxConnWaitTimeout <= 0 {
 		c.connsLock.Lock()
 		c.connsCount--
@@ -1032,6 +1038,7 @@ func releaseClientConn(cc *clientConn) {
 var clientConnPool sync.Pool
 
 func (c *HostClient) releaseConn(cc *clientConn) {
+	verifYield(4)
 	cc.lastUseTime = time.Now()
 	if c.MaxConnWaitTimeout <= 0 {
 		c.connsLock.Lock()
@@ -1258,6 +1265,7 @@ func (w *wantConn) cancel(c *HostClient, err error) {
 	w.conn = nil
 	w.err = err
 	w.mu.Unlock()
+	verifYield(5)
 
 	if conn != nil {
 		c.releaseConn(conn)
